@@ -102,7 +102,7 @@ func TestVerifC04(t *testing.T) {
 			c := c04Cases[i]
 			return []int{1, c.p, c.c1, c.c2}
 		},
-		Runs: map[string]int{"quick": 1500, "thorough": 200000},
+		Runs: map[string]int{"quick": 4000, "thorough": 400000},
 		Real: []string{"cmd/application handleNewTCPConn (accumulate-and-retry read loop, MarkActive)", "min / prefix / obfs4 station transports and the matching real client transports (WrapConn produces every flight)", "pkg/station/lib Proxy / halfPipe relay", "RegistrationManager, ingest pipeline (HandleRegUpdates), RemoveOldRegistrations"},
 		Stub: []string{"TCP to the phantom (simnet: cut points, pacing)", "covert host (echo actor behind the dial seam)", "liveness table, detector recorder, ZMQ", "handleNewConn's accept / original-destination glue"},
 		Rule: "enumerated: for min (2 parameter sets) and prefix (10 ids x 3 flush policies x 2 port modes) every single cut at offsets 1..89 of flight+data, for obfs4 every single cut at offsets 1..100 and at 1..48 bytes before the end of the real client handshake, and every pair of cuts for min and for a seed-rotated twelfth of the prefix sets (thorough: all sets): complete for the stated bound; random: 1-3 concurrent clients (min, prefix, obfs4), k-cut segmentations incl. cuts counted from the end of the obfs4 handshake, pacing < 4.5 s in total, early data 0..64 KiB in the same segments as the tag, 0-3 other registrations on the same phantom. " +
